@@ -95,6 +95,12 @@ Theorem C19_en_low_keeps_priority n st c :
   c_rst c = false -> c_en c = false -> snd (step n true st c) = st.
 Proof. exact (en_low_keeps_priority n st c). Qed.
 
+(* hence a cycle with the enable low is invisible to every later cycle: whatever it requested or granted *)
+Theorem C19_en_low_cycle_is_invisible n st c h :
+  c_rst c = false -> c_en c = false ->
+  run n true (snd (step n true st c)) h = run n true st h.
+Proof. intros Hr He. rewrite (en_low_keeps_priority n st c Hr He). reflexivity. Qed.
+
 Theorem C19_plain_is_en_tied_high n st rst en reqs :
   step n false st (rst, en, reqs) = step n true st (rst, true, reqs).
 Proof. exact (plain_is_en_high n st rst en reqs). Qed.
@@ -184,4 +190,4 @@ Print Assumptions C19_en_low_keeps_priority. Print Assumptions C19_plain_is_en_t
 Print Assumptions C19_fair_measure. Print Assumptions C19_fairness. Print Assumptions C19_fairness_plain.
 Print Assumptions C19_replay_ok_sound. Print Assumptions C19_nonvacuous.
 Print Assumptions C19_last_granted_has_least_priority. Print Assumptions C19_no_back_to_back_grant.
-Print Assumptions no_back_to_back_nonvacuous.
+Print Assumptions no_back_to_back_nonvacuous. Print Assumptions C19_en_low_cycle_is_invisible.
